@@ -156,7 +156,8 @@ def _input(rng, text):
 def _mut_case(rng):
     text, kinds = _mut_text(rng)
     return {"kind": "mut", "inp": _input(rng, text), "allow": rng.random() < 0.4,
-            "maxb": rng.choice([None] * 8 + [1, 2, 3]), "mut": kinds}
+            "maxb": rng.choice([None] * 8 + [1, 2, 3]), "mut": kinds,
+            "pre": rng.choice(cl.PRE_TEXTS) if rng.random() < 0.06 else None}
 
 
 # --- editing scripts
@@ -201,9 +202,15 @@ def gen_new_block(rng):
     return {"op": "new_block", "args": args}
 
 
+READS = ["version", "versions", "full_version", "upstream_version", "getitem0", "block_version", "package", "author"]
+
+
 def gen_op(rng):
     r = rng.random()
-    if r < 0.35:
+    if r < 0.1:
+        # reading never changes the object (no counterpart in the model's script)
+        return {"op": "read", "what": rng.choice(READS)}
+    if r < 0.4:
         return gen_new_block(rng)
     if r < 0.6:
         q = rng.random()
@@ -242,6 +249,10 @@ def _edit_case(rng):
             text, _ = _mut_text(rng)
         start = _input(rng, text)
     ops = [gen_op(rng) for _ in range(rng.choice([1, 1, 2, 2, 3, 4, 5]))]
+    if rng.random() < 0.1:
+        # "bump the version": look at the version, then assign a new one
+        ops = [{"op": "read", "what": rng.choice(READS[:6])},
+               {"op": "set", "attr": "version", "v": cl.gen_version(rng)}] + ops[:2]
     if start is None and rng.random() < 0.85 and ops[0]["op"] != "new_block":
         ops.insert(0, gen_new_block(rng))
     return {"kind": "edit", "start": start, "ops": ops}
@@ -265,7 +276,31 @@ def from_json(j):
     return j
 
 
+def _read(c, what):
+    try:
+        if what == "version":
+            return c.version
+        if what == "versions":
+            return c.versions
+        if what == "full_version":
+            return c.full_version
+        if what == "upstream_version":
+            return c.upstream_version
+        if what == "getitem0":
+            return c[0].version
+        if what == "block_version":
+            return [b.version for b in c]
+        if what == "package":
+            return c.package
+        return c.author
+    except Exception:
+        return None
+
+
 def _apply_op(c, op):
+    if op["op"] == "read":
+        _read(c, op["what"])
+        return
     if op["op"] == "new_block":
         a = op["args"]
         kw = {}
@@ -300,8 +335,8 @@ def run_impl(case):
     if case["kind"] == "leaf":
         return {"groups": cl.leaf_groups(case["leaf"], case["s"])}
     if case["kind"] == "mut":
-        len_r, _ = cl.construct(case["inp"], strict=False, allow=case["allow"], maxb=case["maxb"])
-        str_r, _ = cl.construct(case["inp"], strict=True, allow=case["allow"], maxb=case["maxb"])
+        len_r, _ = cl.construct(case["inp"], strict=False, allow=case["allow"], maxb=case["maxb"], pre=case.get("pre"))
+        str_r, _ = cl.construct(case["inp"], strict=True, allow=case["allow"], maxb=case["maxb"], pre=case.get("pre"))
         return {"lenient": len_r, "strict": str_r, "re": cl.reparse_of(len_r, case["allow"])}
     # edit
     from debian import changelog
@@ -375,7 +410,7 @@ def emit(case, obs):
     def build(L):
         return "CEdit %s %s %s %s %s" % (
             cq_opt(case["start"], lambda i: cl.cq_input(i, L)), cl.cq_tbl(tbl, L),
-            cq_list([_cq_op(op, L) for op in case["ops"]]), cl.cq_res(obs["o"], L),
+            cq_list([_cq_op(op, L) for op in case["ops"] if op["op"] != "read"]), cl.cq_res(obs["o"], L),
             cq_opt(obs["re"], lambda r: cl.cq_res(r, L)))
     return cl.with_lits(build)
 
@@ -389,12 +424,17 @@ def classify(case, obs):
         s = st["err"] if "err" in st else "ok"
         f = "fmt-ok" if ("ok" in le and "ok" in le["ok"]["str"]) else "fmt-err"
         m = case["mut"][0] if case["mut"] else "none"
-        return "mut/%s/%s/%s/strict-%s/%s/%s%s" % (m, case["inp"]["form"], w, s, f,
-                                                   "allow" if case["allow"] else "noallow",
-                                                   "" if case["maxb"] is None else "/maxb")
+        return "mut/%s/%s/%s/strict-%s/%s/%s%s%s" % (m, case["inp"]["form"], w, s, f,
+                                                     "allow" if case["allow"] else "noallow",
+                                                     "" if case["maxb"] is None else "/maxb",
+                                                     "" if case.get("pre") is None else "/reparse")
     o = obs["o"]
     start = "empty" if case["start"] is None else "parsed"
     kinds = "+".join(sorted(set(op["op"] if op["op"] != "set" else "set-" + op["attr"] for op in case["ops"])))
+    for i, op in enumerate(case["ops"]):
+        if op["op"] == "read" and any(o["op"] == "set" and o["attr"] == "version" for o in case["ops"][i + 1:]):
+            kinds += "/read-then-set-version"
+            break
     if "err" in o:
         return "edit/%s/%s/raised:%s" % (start, kinds, o["err"])
     return "edit/%s/%s/%s" % (start, kinds, "fmt-ok" if "ok" in o["ok"]["str"] else "fmt-err")
@@ -437,6 +477,8 @@ def shrink(case):
             yield dict(case, s=s[:i] + s[i + 1:])
         return
     if case["kind"] == "mut":
+        if case.get("pre") is not None:
+            yield dict(case, pre=None)
         if case["maxb"] is not None:
             yield dict(case, maxb=None)
         if case["allow"]:
